@@ -29,7 +29,7 @@ m = {
         "guard": "verif_hooks",
         "enable": "cargo feature: the harness depends on arimaa_engine_step with features = [\"verif_hooks\"] (harness/Cargo.toml)",
         "baseline_off_cmd": "cd /repo && cargo test --workspace --no-fail-fast --offline",
-        "source_commits": ["83bdabb", "fda6844"],
+        "source_commits": ["83bdabb", "fda6844", "9464eef"],
         "add_only": True,
     },
     "engines": [
